@@ -71,6 +71,8 @@ pub enum Gui {
     Go(GoSpec),
     Stop,
     PonderHit,
+    /// `register later` (false) or `register name .. code ..` (true)
+    Register(bool),
     Quit,
 }
 
@@ -124,6 +126,8 @@ impl Gui {
             }
             Gui::Stop => "stop".into(),
             Gui::PonderHit => "ponderhit".into(),
+            Gui::Register(false) => "register later".into(),
+            Gui::Register(true) => "register name Some Body code 12345".into(),
             Gui::Quit => "quit".into(),
         }
     }
@@ -144,6 +148,8 @@ impl Gui {
             }
             Gui::Stop => UciCommand::Stop,
             Gui::PonderHit => UciCommand::PonderHit,
+            Gui::Register(false) => UciCommand::RegisterLater,
+            Gui::Register(true) => UciCommand::Register { name: "Some Body".into(), code: "12345".into() },
             Gui::Quit => UciCommand::Quit,
         }
     }
